@@ -65,7 +65,7 @@ def corrupt(rng, st):
     gs = [g for g in s["groups"]]
     g = rng.choice(gs)
     finals = [e for e in g["entries"] if e["kind"] == "final"]
-    k = rng.randrange(22)
+    k = rng.randrange(24)
     if k == 0 and finals:
         rng.choice(finals)["has_data"] = False
         return "data file deleted", s
@@ -146,6 +146,11 @@ def corrupt(rng, st):
     if k == 21:
         g["extra"].append({"name": "." + bname(g["day"], 100), "dir": False, "kind": "junk-hidden-file-with-temp-name"})
         return "hidden file with a temporary backup name", s
+    if k in (22, 23) and finals:
+        # the compressed manifest is a complete, decodable frame followed by bytes that are not a frame: every record can still be read,
+        # then the stream breaks
+        rng.choice(finals)["tail_garbage"] = True
+        return "garbage after the manifest's last frame", s
     return "none", s
 
 
@@ -166,6 +171,8 @@ def real_spec(st):
                 b["manifest_hex"] = b"this is not zstd".hex()
             if e.get("trunc"):
                 b["meta_truncate"] = 9
+            if e.get("tail_garbage"):
+                b["meta_append_hex"] = (b"\x00\x01garbage after the frame" * 8).hex()
             bs.append(b)
         for x in g["extra"]:
             junk.append({"name": x["name"], "dir": x["dir"]})
@@ -181,7 +188,7 @@ def model_storage(st):
         for e in g["entries"]:
             man = e["manifest"]
             mm = [[int(u), h, sz] for (u, h, sz) in man]
-            unreadable = e.get("garbage") or e.get("badline") or e.get("trunc")
+            unreadable = e.get("garbage") or e.get("badline") or e.get("trunc") or e.get("tail_garbage")
             ents.append((bname(e["day"], e["time"]), [0, [e["day"], e["time"], int(e["has_data"]), int(e["has_meta"]), [] if unreadable else [mm]]]))
         for x in g["extra"]:
             kind = x["kind"]
